@@ -9,6 +9,7 @@ package lib
 // second run is slow as well is it reported as slow.
 
 import (
+	"strings"
 	"time"
 )
 
@@ -91,13 +92,21 @@ func c03run(f func() string) (ans string, late, hung bool) {
 	return "hang", true, true
 }
 
+// C03SlowOps: the requests that went through a guarded op and were late twice (drained by cmd/C03, which turns
+// each into the violation C03/slow/<decoder>)
+var C03SlowOps []string
+
 // C03GuardOps wraps every registered op in the watchdog, so that replaying a request that hangs prints "hang"
-// instead of hanging the replay.  Called by cmd/C03 before Main (all init functions have registered their ops).
+// instead of hanging the replay, and a request that is late twice is recorded in C03SlowOps.
+// Called by cmd/C03 before Main (all init functions have registered their ops).
 func C03GuardOps() {
 	for name, f := range implOps {
-		op := f
+		op, nm := f, name
 		implOps[name] = func(a []string) string {
-			ans, _ := C03Call(func() string { return op(a) })
+			ans, outcome := C03Call(func() string { return op(a) })
+			if outcome == "slow" && len(C03SlowOps) < 50 {
+				C03SlowOps = append(C03SlowOps, nm+" "+strings.Join(a, " "))
+			}
 			return ans
 		}
 	}
